@@ -385,6 +385,7 @@ def _fwd_acked(ctx, **params):
 
 
 HARNESSES = {
+    "stray-init": Harness("stray-init", lambda ctx, **kw: __import__("harness.c05_nocrash", fromlist=["h_sctp_init_then_valid"]).h_sctp_init_then_valid(ctx, **kw), lambda tier: [{"role": r} for r in ("client", "server")], style="STEP", bounds="a duplicated / stray INIT (every field symbolic, also the peer's own initiate tag) reaching an established association, then the peer's next two messages: delivered once, in order", encoded=["aiortc.rtcsctptransport:RTCSctpTransport._receive_chunk"], twin="valid-after-init-handled", opts={"samples": 1}),
     "early-message": Harness("early-message", h_early_message, lambda tier: [{"state": st, "ordered": o} for st in ("connecting", "open", "closing") for o in (True, False)], style="STEP", bounds="one complete user message (binary or string, symbolic byte) arriving on the stream of a channel that is connecting / open / closing, ordered or unordered", encoded=["aiortc.rtcsctptransport:RTCSctpTransport._receive_data_chunk", "aiortc.rtcsctptransport:RTCSctpTransport._data_channel_receive"], twin="early-message-handled", opts={"samples": 1}),
     "interleave": Harness("interleave", h_interleave, lambda tier: [{"n": n} for n in ((2,) if tier == "quick" else (2, 3))], style="BMC over schedules", bounds="2 (quick) / 3 concurrent _send tasks on one ordered stream, every interleaving at the suspension point of the transport send; TSN and SSN origins symbolic", encoded=["aiortc.rtcsctptransport:RTCSctpTransport._send", "aiortc.rtcsctptransport:RTCSctpTransport._transmit"], stubs=["DTLS transport _send_data -> suspends once, then records the datagram"], twin="interleaved", opts={"samples": 1}),
     "forward-tsn-bookkeeping": Harness("forward-tsn-bookkeeping", _fwd_acked, lambda tier: [{"q": q} for q in ((0, 1) if tier == "quick" else (0, 1, 2))], style="STEP", bounds="sender with an outstanding FORWARD-TSN (1..3 abandoned chunks, one stream entry) and 0..1 (2) further chunks; one SACK: an acknowledged FORWARD-TSN leaves no (stream, sequence) entries that a later one could replay onto a stream id since re-used by a reliable channel", encoded=["aiortc.rtcsctptransport:RTCSctpTransport._update_advanced_peer_ack_point", "aiortc.rtcsctptransport:RTCSctpTransport._receive_sack_chunk"], twin="sack-over-forward-tsn-processed", opts={"samples": 1}),
